@@ -178,9 +178,11 @@ type ImageSource struct {
 // AnthropicTool represents a tool definition
 // Tools enable the model to call external functions
 type AnthropicTool struct {
-	InputSchema map[string]interface{} `json:"input_schema"` // JSON Schema for tool parameters
-	Name        string                 `json:"name"`
-	Description string                 `json:"description,omitempty"`
+	CacheControl interface{}            `json:"cache_control,omitempty"` // prompt-caching breakpoint; not carried into the OpenAI form
+	InputSchema  map[string]interface{} `json:"input_schema"`            // JSON Schema for tool parameters
+	Name         string                 `json:"name"`
+	Description  string                 `json:"description,omitempty"`
+	Type         string                 `json:"type,omitempty"` // "custom" for client tools; optional
 }
 
 // ToolChoiceAuto represents automatic tool selection
